@@ -170,6 +170,9 @@ def run(ctx, report):
     for s, kind, init in scenarios(ctx):
         d = ctx.workdir("c16")
         path = os.path.join(d, f"f{s}")
+        if s == 4:
+            # a DATA file whose name contains, but does not end with, "_metadata"
+            kind, path = "data", os.path.join(d, "orders_metadata.parquet")
         shutil.rmtree(path, ignore_errors=True)
         if os.path.isfile(path):
             os.remove(path)
